@@ -17,6 +17,9 @@ for i in ids:
         na.append({"property_id": i, "reason": PENDING.get(i, "check not built yet (work in progress; see DESIGN.md section 12)")})
         continue
     m = importlib.import_module(f"hx.props.{i.lower()}")
+    if not os.path.exists(os.path.join(ROOT, "lean", *m.LEAN_MODULE.split(".")) + ".lean"):
+        na.append({"property_id": i, "reason": PENDING.get(i, "Lean property module not committed yet (model, correspondence and oracle exist; proofs in progress)")})
+        continue
     partial = getattr(m, "PARTIAL", "")
     checks.append({
         "property_id": i,
